@@ -401,6 +401,22 @@ def getToken (r : Str) : M Step := do
   let (t, e, r') ← dispatch k r
   return (t, (if err then 1 else 0) + e, r')
 
+/-- tokenizer_t::getHeader (used for `#include`; after FL1): the header name (empty on a malformed
+    header), printError count, position -/
+def getHeader (r : Str) : M (Str × Nat × Str) := do
+  let (k, r1) ← shallowPeek r
+  let isQuoted := match k with | .str _ => true | _ => false
+  let isAngleBracket := match k with | .op => true | _ => false
+  if !isQuoted && !isAngleBracket then return ([], 1, r1)
+  if isQuoted then
+    let (v, _, e, r2) ← getString 0 r1
+    return (v, e, r2)
+  let r2 ← adv r1 1                       -- skip <
+  let r3 ← skipTo ['>', '\n'] r2
+  if hd r3 ≠ '>' then return ([], 1, r3)
+  let r4 ← adv r3 1
+  return (consumed r2 r3, 0, r4)
+
 structure Result where
   toks : List Tok
   errors : Nat
